@@ -94,6 +94,17 @@ def derivative_monitors(run):
     run.notes['derivative_monitor_runs_on_generic_floats'] = n_runs
 
 
+def _own_retraction(base):
+    class Own(base):
+        def jacobian_boxplus(self):
+            return 3.0 * base.jacobian_boxplus(self) + 1.0
+    Own.__name__ = 'OwnRetraction' + base.__name__
+    return Own
+
+
+_RETR = {cls: _own_retraction(cls) for cls in B.CLS_OF.values()}
+
+
 def check(run, cases=None):
     if cases is None:
         derivative_monitors(run)
@@ -122,6 +133,13 @@ def check(run, cases=None):
             a, b = oa, ob
             run.notes['in_place_reuse_cases'] = run.notes.get('in_place_reuse_cases', 0) + 1
         live[k] = (a, b)
+        # Subclass dimension: the receiver is an instance of a user subclass -- a trivial one, or one with its own retraction (overriding
+        # jacobian_boxplus only) -- while `b` stays a base-class pose (which is what every library operation returns).  All twelve methods
+        # differentiate w.r.t. the full representation, so none but jacobian_boxplus itself may depend on the override.
+        if run.replayed % 3 == 1:
+            a = a.view(EC._SUB[type(a)])
+        elif run.replayed % 3 == 2:
+            a = a.view(_RETR[type(a)])
         pt = np.array([float(x) for x in c['pt']])
         f, cd, dm = B.FDIM[k], B.CDIM[k], B.DIM[k]
         D = obs['D']
@@ -144,7 +162,7 @@ def check(run, cases=None):
             ('ominus_self_compact', lambda: a.jacobian_self_ominus_other_wrt_self_compact(b), bp_a, ex('ominus_self', cd), flip['ominus']),
             ('ominus_other', lambda: a.jacobian_self_ominus_other_wrt_other(b), bp_b, ex('ominus_other'), flip['ominus']),
             ('ominus_other_compact', lambda: a.jacobian_self_ominus_other_wrt_other_compact(b), bp_b, ex('ominus_other', cd), flip['ominus']),
-            ('boxplus', lambda: a.jacobian_boxplus(), None, bp_a, False),
+            ('boxplus', lambda: B.CLS_OF[k].jacobian_boxplus(a), None, bp_a, False),
             ('point_self', lambda: a.jacobian_self_oplus_point_wrt_self(pt), bp_a, ex('point_self'), False),
             ('point_point', lambda: a.jacobian_self_oplus_point_wrt_point(pt), None, np.array([[q[0] / q[1] for q in row[:dm]] for row in D['point_point']]), False),
             ('inverse', lambda: a.jacobian_inverse(), bp_a, ex('inverse'), flip['inverse']),
@@ -179,9 +197,9 @@ def check(run, cases=None):
                 if not np.array_equal(got[full][:cd], got[full + '_compact']):
                     run.violation(dict(k=k, method=full + '_compact'), '%s_compact is not the first %d rows of %s | case %r' % (full, cd, full, c), dict(case=c))
         # a Jacobian returned earlier must not be affected by later calls or by the caller editing another result in place
-        first = a.jacobian_boxplus()
+        first = B.CLS_OF[k].jacobian_boxplus(a)
         first *= 0.5
-        again = np.asarray(a.jacobian_boxplus(), dtype=float)
+        again = np.asarray(B.CLS_OF[k].jacobian_boxplus(a), dtype=float)
         if 'boxplus' in got and not np.array_equal(again, got['boxplus']):
             run.violation(dict(k=k, method='boxplus', check='aliasing'), 'jacobian_boxplus() changed after the caller scaled an earlier result in place | case %r' % (c,), dict(case=c))
         if run.replayed % 173 == 1 and 'ominus_other' in got:
